@@ -375,6 +375,10 @@ pub fn keysearch(n: usize, start: u64, count: u64, outfile: &str) {
                 if h[0] == 0 {
                     kinds.push("h_const_zero");
                 }
+                // g not invertible modulo q (legal: only f has to be; 4 % of keys) - reported for the first few only
+                if i < start + 400 && vh::felt_fft(&gq).iter().any(|&v| v == 0) {
+                    kinds.push("g_ntt_zero");
+                }
                 if !kinds.is_empty() {
                     // confirm with the real key generation
                     let k = crate::keys::keygen_info(n, &special_seed(i));
